@@ -55,14 +55,14 @@ package types
 // arithmetic is the subject of C03).
 //@ func (*Pool).SwapOutAmtGivenIn
 //@ decabstract
-//@ modifies *p.PoolAssets
-//@ ensures C02/shares-untouched: true
+//@ modifies nothing
+//@ ensures C02,C01/pool-object-untouched: true
 //@ ensures C04/pays-out-the-asked-denom: err == nil ==> tokenOut.Denom == tokenOutDenom
 
 //@ func (*Pool).SwapInAmtGivenOut
 //@ decabstract
-//@ modifies *p.PoolAssets
-//@ ensures C02/shares-untouched: true
+//@ modifies nothing
+//@ ensures C02,C01/pool-object-untouched: true
 //@ ensures C04/takes-the-asked-denom: err == nil ==> tokenIn.Denom == tokenInDenom
 
 //@ func (*Pool).TVL
@@ -100,24 +100,41 @@ package types
 // The reserve the pool reports for a denom.
 //@ define reserveOf(p, d) := sumOver(p.PoolAssets, a, ite(a.Token.Denom == d, a.Token.Amount, 0))
 
+// A pool lists each of its assets once.
+//@ define uniqueAssetDenoms(p) := allOf(p.PoolAssets, a, sumOver(p.PoolAssets, b, ite(b.Token.Denom == a.Token.Denom, 1, 0)) == 1)
+
 //@ func (*Pool).UpdatePoolAssetBalances
+//@ forall d Str
+//@ requires uniqueAssetDenoms(p)
 //@ modifies *p.PoolAssets
 //@ ensures C02/only-reserves-change: true
+//@ ensures C01/listed-denoms-set-others-kept: err == nil ==> reserveOf(p, d) == ite(amt(coins, d) != 0, amt(coins, d), old(reserveOf(p, d)))
+//@ ensures C01/assets-stay-unique: uniqueAssetDenoms(p)
 
 //@ func (*Pool).IncreaseLiquidity
 //@ modifies *p.PoolAssets, *p.TotalShares
 //@ ensures C02/shares-up-by-the-amount: err == nil ==> p.TotalShares.Amount == old(p.TotalShares.Amount) + sharesAmt && p.TotalShares.Denom == old(p.TotalShares.Denom)
+//@ forall d Str
+//@ ensures C01/reserves-up-by-the-coins: err == nil ==> reserveOf(p, d) == old(reserveOf(p, d)) + amt(coinsIn, d)
 
 //@ func (*Pool).DecreaseLiquidity
 //@ modifies *p.PoolAssets, *p.TotalShares
 //@ ensures C02/shares-down-by-the-amount: err == nil ==> p.TotalShares.Amount == old(p.TotalShares.Amount) - sharesAmt && p.TotalShares.Denom == old(p.TotalShares.Denom)
+//@ forall d Str
+//@ ensures C01/reserves-down-by-the-coins: err == nil ==> reserveOf(p, d) == old(reserveOf(p, d)) - amt(coinsIn, d)
 
 //@ func (*Pool).JoinPool
 //@ decabstract
 //@ modifies *p.PoolAssets, *p.TotalShares
 //@ ensures C02/shares-up-by-the-shares-returned: err == nil ==> p.TotalShares.Amount == old(p.TotalShares.Amount) + numShares && p.TotalShares.Denom == old(p.TotalShares.Denom)
+//@ forall d Str
+//@ ensures C01/reserves-up-by-the-tokens-joined: err == nil ==> reserveOf(p, d) == old(reserveOf(p, d)) + amt(tokensJoined, d)
 
 //@ func (*Pool).ExitPool
 //@ decabstract
 //@ modifies *p.PoolAssets, *p.TotalShares
 //@ ensures C02/shares-down-by-the-exiting-shares: err == nil ==> p.TotalShares.Amount == old(p.TotalShares.Amount) - exitingShares && p.TotalShares.Denom == old(p.TotalShares.Denom)
+//@ forall d Str
+//@ requires uniqueAssetDenoms(p)
+//@ ensures C01/reserves-down-by-the-exit-coins: err == nil && old(reserveOf(p, d)) - amt(exitingCoins, d) != 0 ==> reserveOf(p, d) == old(reserveOf(p, d)) - amt(exitingCoins, d)
+
